@@ -26,6 +26,9 @@ pub enum EncKind { Honest, WrongToken, StaleToken, OtherKey, Garbage, GarbageTok
     /// the first n bytes of the issued token (0 = empty), or the token plus one byte (n = 33)
     TokenPrefix(usize) }
 
+/// the verify token of the connection that last answered an Encryption Request in this process
+static PREV_TOKEN: std::sync::Mutex<Option<Vec<u8>>> = std::sync::Mutex::new(None);
+
 #[derive(Clone, Debug)]
 pub enum Echo { Last, Nth(usize), Wrong, LastPlusOne }
 
@@ -54,6 +57,10 @@ pub enum Step {
     Throttle(Vec<WAns>),
     /// let this much virtual time pass; keep-alive ticks that fall inside are delivered one by one
     Wait(u64),
+    /// the whole process is stalled for this much virtual time (suspended, starved, a blocking call on the worker): the
+    /// clock jumps in one go and the handler only runs again afterwards; however many keep-alive instants were crossed,
+    /// ONE tick is due at wake-up (the interval skips missed ticks), the next at the following multiple of the period
+    Stall(u64),
     /// real (wall-clock) pause of the client, milliseconds: the clock read by the cookie check moves on
     RealSleep(u64),
     /// several frames handed to the transport in ONE write (coalesced segments); the client switches its
@@ -225,13 +232,15 @@ impl Runner<'_> {
                 let (sct, tct) = match kind {
                     EncKind::Honest => (e(server_pub, ss), e(server_pub, &tok)),
                     EncKind::WrongToken => { let mut t = tok.clone(); t[5] ^= 1; (e(server_pub, ss), e(server_pub, &t)) }
-                    EncKind::StaleToken => (e(server_pub, ss), e(server_pub, &[0xabu8; 32])),
+                    // a token this process issued on an EARLIER connection (a recorded Encryption Response replayed elsewhere)
+                    EncKind::StaleToken => { let prev = PREV_TOKEN.lock().unwrap().clone().unwrap_or_else(|| vec![0xabu8; 32]); (e(server_pub, ss), e(server_pub, &prev)) }
                     EncKind::OtherKey => (e(self.other_key, ss), e(self.other_key, &tok)),
                     EncKind::Garbage => (vec![0x5a; 128], e(server_pub, &tok)),
                     EncKind::GarbageToken => (e(server_pub, ss), vec![1, 2, 3]),
                     EncKind::SecretLen(n) => (e(server_pub, &vec![0x42u8; *n]), e(server_pub, &tok)),
                     EncKind::TokenPrefix(n) => { let mut t = tok.clone(); if *n > t.len() { t.push(0x5a); } else { t.truncate(*n); } (e(server_pub, ss), e(server_pub, &t)) }
                 };
+                if self.token.is_some() { *PREV_TOKEN.lock().unwrap() = Some(tok.clone()); }
                 for ct in [&sct, &tct] {
                     let pt = passage_protocol::crypto::decrypt(&passage_protocol::crypto::KEY_PAIR.0, ct).ok();
                     self.rsa_pairs.push((ct.clone(), pt));
@@ -340,6 +349,13 @@ impl Runner<'_> {
                         break;
                     }
                 }
+            }
+            Step::Stall(ms) => {
+                let period = Duration::from_secs(16).as_nanos();
+                let before = self.t0.elapsed().as_nanos() / period;
+                tokio::time::advance(Duration::from_millis(*ms)).await;
+                if self.t0.elapsed().as_nanos() / period > before { self.inputs.push("T".into()); self.inputs1.push("T".into()); }
+                self.settle_and_drain().await;
             }
             Step::BadLen(n) => { self.inputs.push("B".into()); let b = ref_varint(*n); self.write_plain(&b).await; self.settle_and_drain().await; }
             Step::Raw(b) => { self.inputs.push("?raw".into()); self.write_plain(b).await; self.settle_and_drain().await; }
